@@ -154,7 +154,7 @@ func Run(c *gen.Ctx) error {
 	meta.Evaluations = cf.Len()
 	meta.Programs = len(probes)
 	meta.DistinctNontrivial = len(distinct)
-	meta.Rule = "10 corpus operations (list fan-out, nested lists, abstract lists, 4 with @defer incl. nested and inside lists, a mutation) x cancellation points {never, before dispatch, on entry of the k-th resolver call for k = 1..6 (quick) / all k (thorough)} x {cancel(), deadline exceeded} x consumer {drains every payload, stops after the first as a single-response transport does} x probe servers generated from the current templates with worker_limit {0,1,2,8}; a hang is a response function that has not returned 1.5 s after the request was issued (resolvers return promptly when cancelled); a leak is a goroutine with a generated-code or gqlgen frame still alive up to 100 ms after the request context was cancelled. distinct_nontrivial = distinct (config, operation, cancellation point, consumer) with a cancellation. Streaming transports: SSE and multipart/mixed handlers (tickers at 50 us and 1 ms) in front of an operation of 1..3 payloads, written to clients whose writes take 0 / 0.3 / 3 ms: the handler must return within 3 s and no goroutine of the transport may be alive 200 ms after the request was cancelled. Websocket connections (both subprotocols, init timeout 25 ms) that stay silent, leave before or after the handshake or after one operation: no goroutine of the transport may be alive 300 ms after the connection ended."
+	meta.Rule = "10 corpus operations (list fan-out, nested lists, abstract lists, 4 with @defer incl. nested and inside lists, a mutation) x cancellation points {never, before dispatch, on entry of the k-th resolver call for k = 1..6 (quick) / all k (thorough)} x {cancel(), deadline exceeded} x consumer {drains every payload, stops after the first as a single-response transport does} x probe servers generated from the current templates with worker_limit {0,1,2,8}; a hang is a response function that has not returned 1.5 s after the request was issued (resolvers return promptly when cancelled); a leak is a goroutine with a generated-code or gqlgen frame still alive up to 100 ms after the request context was cancelled. distinct_nontrivial = distinct (config, operation, cancellation point, consumer) with a cancellation. Streaming transports: SSE and multipart/mixed handlers (tickers at 50 us and 1 ms) in front of an operation of 1..3 payloads, written to clients whose writes take 0 / 0.3 / 3 ms: the handler must return within 3 s and no goroutine of the transport may be alive 2 s after the request was cancelled. Websocket connections (both subprotocols, init timeout 25 ms) that stay silent, leave before or after the handshake or after one operation: no goroutine of the transport may be alive 2 s after the connection ended."
 	meta.Samples = []any{descr[0], descr[len(descr)/2]}
 	meta.Distribution = map[string]any{"outcomes": stats, "operations": len(corpus), "configurations": len(probes)}
 	return meta.Write(c.OutDir)
